@@ -288,6 +288,30 @@ def check_closure_capture(ctx, rep, rule, funcs=None):
 
 
 # ---------------------------------------------------------------------------
+def check_duplicate_operands(ctx, rep, rule, quals):
+    """`a and a` / `a or a` / `x & x`: the second operand was meant to test
+    something else (copy/paste slip)."""
+    n = 0
+    for q in quals:
+        f = ctx.func(q)
+        for node in ast.walk(f.node):
+            ops = None
+            if isinstance(node, ast.BoolOp):
+                ops = node.values
+            elif isinstance(node, ast.BinOp) and isinstance(node.op, (ast.BitAnd, ast.BitOr)):
+                ops = [node.left, node.right]
+            if not ops:
+                continue
+            n += 1
+            texts = [norm(o) for o in ops]
+            dup = [t for t in set(texts) if texts.count(t) > 1]
+            if dup:
+                rep.bad(rule, f"{f.local}:{node.lineno} duplicated operand")
+                rep.finding(rule, f, norm(node)[:140], node.lineno, f"the condition tests `{dup[0][:60]}` twice: one of the operands was meant to test something else")
+    return n
+
+
+# ---------------------------------------------------------------------------
 def check_swapped_args(ctx, rep, rule, callee_pred):
     """Argument / parameter agreement: a positional argument that is a plain
     variable named like *another* parameter of the callee (while that
